@@ -221,4 +221,27 @@ def r7_4(ctx):
     ctx.check(ok, gc.fq, "header, cells, footer", gc.where, "header first, then cells in order, then footer", "_get_cells no longer yields header, then the cells in order, then footer")
 
 
-RULES = [r7_1, r7_2, r7_3, r7_4]
+def r7_5(ctx):
+    ctx.rule("R7.5", "each row occupies at least one line: the row height handed to set_shape starts at 1 and only grows with the tallest cell (a row whose cells all render to nothing still gets its own line)")
+    f = ctx.repo.fn("table:Table._render")
+    m = f.module
+    shapes = [c for c in ast.walk(f.node) if isinstance(c, ast.Call) and norm(c.func).endswith(".set_shape") and len(c.args) >= 3]
+    ctx.floor(len(shapes), 1, "set_shape calls in _render")
+    for c in shapes:
+        h = c.args[2]
+        where = f"{m.relpath}:{c.lineno}"
+        if not isinstance(h, ast.Name):
+            ctx.violation(f.fq, short(c), where, f"row height `{norm(h)}` is not the running maximum variable")
+            continue
+        defs = [x for x in walk_local(f.node) if isinstance(x, ast.Assign) and len(x.targets) == 1 and norm(x.targets[0]) == h.id]
+        init = [d for d in defs if isinstance(d.value, ast.Constant) and isinstance(d.value.value, int) and d.value.value >= 1]
+        grow = [d for d in defs if isinstance(d.value, ast.Call) and norm(d.value.func) == "max" and any(norm(a) == h.id for a in d.value.args)]
+        other = [d for d in defs if d not in init and d not in grow]
+        ok = bool(init) and not other
+        ctx.check(ok, f.fq, "; ".join(norm(d) for d in defs), where, f"`{h.id}` starts at >= 1 and only grows by max({h.id}, ...)",
+                  f"row height `{h.id}` is defined by {[norm(d) for d in defs]}: it can be 0 when every cell of a row renders to no lines, so that row vanishes instead of occupying a line of its own")
+        # the same height is used for every cell of the row and for the line loop
+        ctx.check(f"for line_no in range({h.id})" in norm(f.node), f.fq, f"range({h.id})", where, "the row's lines are emitted for exactly that height", f"the emitted line count is not range({h.id})")
+
+
+RULES = [r7_1, r7_2, r7_3, r7_4, r7_5]
